@@ -155,4 +155,54 @@ mod vk_seq {
     #[kani::proof]
     #[kani::unwind(5)]
     fn seq_range_fulldomain() { run_range(false); }
+
+    // constructors: every way of creating a concurrent iterator starts at position 0 over exactly the given source
+    // @harness name=constructors_into props=C19,C01,C02,C04 kind=bounded bound="sources of length 3 (symbolic contents); range of any start with length <= 3"
+    #[kani::proof]
+    #[kani::unwind(6)]
+    fn constructors_into() {
+        use crate::{ConcurrentIterable, IntoConcurrentIter, IterIntoConcurrentIter};
+        let a: [u8; 3] = kani::any();
+        let which: u8 = kani::any();
+        kani::assume(which < 5);
+        kani::cover!(which == 4, "wrapped iterator");
+        if which == 0 {
+            let it = IntoConcurrentIter::into_con_iter(vec![a[0], a[1], a[2]]);
+            assert!(it.try_get_len() == Some(3), "[C19 C01 ctor-len] a new iterator has the whole source ahead of it");
+            let x = it.next_id_and_value().map(|x| (x.idx, x.value));
+            assert!(x == Some((0, a[0])), "[C19 C01 C02 ctor-first] the first pull delivers position 0");
+            let r: Vec<u8> = it.into_seq_iter().collect();
+            assert!(r.len() == 2 && r[0] == a[1] && r[1] == a[2], "[C04 C01 ctor-order] ... followed by the rest of the source in order");
+        } else if which == 1 {
+            let it = IntoConcurrentIter::into_con_iter(a);
+            assert!(it.try_get_len() == Some(3), "[C19 C01 ctor-len] a new iterator has the whole source ahead of it");
+            let x = it.next_id_and_value().map(|x| (x.idx, x.value));
+            assert!(x == Some((0, a[0])), "[C19 C01 C02 ctor-first] the first pull delivers position 0");
+            let r: Vec<u8> = it.into_seq_iter().collect();
+            assert!(r.len() == 2 && r[0] == a[1] && r[1] == a[2], "[C04 C01 ctor-order] ... followed by the rest of the source in order");
+        } else if which == 2 {
+            let s0: usize = kani::any();
+            let len: usize = kani::any();
+            kani::assume(len <= 3 && s0 <= usize::MAX - len);
+            let r = s0..s0 + len;
+            let it = r.con_iter();
+            let it2 = IntoConcurrentIter::into_con_iter(s0..s0 + len);
+            assert!(it.try_get_len() == Some(len) && it2.try_get_len() == Some(len), "[C19 C01 ctor-len] a new iterator has the whole source ahead of it");
+            let x = it.next_id_and_value().map(|x| (x.idx, x.value));
+            assert!(x == if len > 0 { Some((0, s0)) } else { None }, "[C19 C01 C02 ctor-first] the first pull delivers position 0");
+            assert!(r.start == s0 && r.end == s0 + len && it2.try_get_len() == Some(len), "[C19 ctor-unmodified] con_iter leaves the range and other iterators over it untouched");
+        } else if which == 3 {
+            let v = vec![a[0], a[1], a[2]];
+            let it = v.con_iter();
+            let x = it.next_id_and_value().map(|x| (x.idx, *x.value));
+            assert!(x == Some((0, a[0])) && it.try_get_len() == Some(2), "[C19 C01 C02 ctor-first] the first pull delivers position 0");
+        } else {
+            let it = IterIntoConcurrentIter::into_con_iter(a.iter().copied());
+            assert!(it.try_get_len() == Some(3), "[C19 C01 C11 ctor-len] a new iterator over an exact-size source has the whole source ahead of it");
+            let x = it.next_id_and_value().map(|x| (x.idx, x.value));
+            assert!(x == Some((0, a[0])), "[C19 C01 C02 ctor-first] the first pull delivers position 0");
+            let mut rest = it.into_seq_iter();
+            assert!(rest.next() == Some(a[1]) && rest.next() == Some(a[2]) && rest.next().is_none(), "[C10 C04 ctor-order] into_seq_iter of a wrapped iterator yields exactly the undelivered remainder, in order");
+        }
+    }
 }
